@@ -93,7 +93,7 @@ def readout_errors(m, via: str = "") -> list[tuple[str, str]]:
     except Exception as ex:  # noqa: BLE001
         return [("raises", f"is_valid raised {type(ex).__name__} for {B!r:.100}")]
     if v is True:
-        if not d["ident_ok"]:
+        if not d["ident_ok"] and not d["ident_dontcare"]:
             errs.append(("valid_bad_ident", f"reported valid but identification line {d['ident_line']!r} is not well-formed: {B!r:.100}"))
         if d["is_checksum"] and d["sent"] != d["crc"]:
             errs.append(("valid_bad_crc", f"reported valid but checksum {d['trailer'].decode()} != CRC16 {d['crc']:04X} of {B!r:.100}"))
@@ -105,7 +105,7 @@ def readout_errors(m, via: str = "") -> list[tuple[str, str]]:
         if p != d["payload"]:
             errs.append(("payload", f"payload {p!r:.60} != bytes between identification line and '!' {d['payload']!r:.60}"))
     elif v is False:
-        if d["is_checksum"] and d["sent"] == d["crc"] and d["ascii"] and d["ident_ok"]:
+        if d["is_checksum"] and d["sent"] == d["crc"] and d["ascii"] and d["ident_ok"] and not d["ident_dontcare"]:
             errs.append(("invalid_good", f"correctly check-summed ASCII readout with well-formed identification reported invalid: {B!r:.100}"))
     else:
         errs.append(("valid_type", f"is_valid returned {v!r}"))
